@@ -162,3 +162,14 @@ func (c *C) inner() { c.n = 2 }`, 2, []string{"go func() { c.n = 1 c.n = 2 }()"}
 		}
 	}
 }
+
+func TestNormalizeHygiene(t *testing.T) {
+	// the helper's package-level name `limit` is a local of the caller: the call is left alone
+	got, inl := normText(t, `
+var limit = 3
+func A() int { limit := 1; go report(); return limit }
+func report() { println(limit) }`)
+	if len(inl) != 0 || !strings.Contains(got, "go report()") {
+		t.Errorf("captured a caller local: %v\n%s", inl, got)
+	}
+}
